@@ -50,7 +50,9 @@ func errClass(err error) string {
 
 func decPriv(algo crypto.SigningAlgorithm, b []byte) string {
 	return guard(func() string {
-		sk, err := crypto.DecodePrivateKey(algo, b)
+		buf := cloneOrNil(b)
+		sk, err := crypto.DecodePrivateKey(algo, buf)
+		wipe(buf) // the input slice is the caller's: a key that kept a reference to it would change now
 		if err != nil {
 			if crypto.IsInvalidInputsError(err) {
 				return "err"
@@ -69,7 +71,9 @@ func decPriv(algo crypto.SigningAlgorithm, b []byte) string {
 
 func decPub(algo crypto.SigningAlgorithm, b []byte) string {
 	return guard(func() string {
-		pk, err := crypto.DecodePublicKey(algo, b)
+		buf := cloneOrNil(b)
+		pk, err := crypto.DecodePublicKey(algo, buf)
+		wipe(buf)
 		if err != nil {
 			if crypto.IsInvalidInputsError(err) {
 				return "err"
@@ -87,7 +91,9 @@ func decPub(algo crypto.SigningAlgorithm, b []byte) string {
 
 func decPubCompressed(algo crypto.SigningAlgorithm, b []byte) string {
 	return guard(func() string {
-		pk, err := crypto.DecodePublicKeyCompressed(algo, b)
+		buf := cloneOrNil(b)
+		pk, err := crypto.DecodePublicKeyCompressed(algo, buf)
+		wipe(buf)
 		if err != nil {
 			if crypto.IsInvalidInputsError(err) {
 				return "err"
@@ -110,3 +116,16 @@ func flipBit(b []byte, i int) []byte {
 	return o
 }
 
+
+func cloneOrNil(b []byte) []byte {
+	if b == nil {
+		return nil
+	}
+	return append(make([]byte, 0, len(b)), b...)
+}
+
+func wipe(b []byte) {
+	for i := range b {
+		b[i] ^= 0xA5
+	}
+}
